@@ -2702,6 +2702,8 @@ func (s *Server) serveConnCounted(c net.Conn, countConcurrency bool) error {
 				// The timed out handler still owns the streamed request body, which
 				// reads from this connection, so the next request cannot be found on it.
 				connectionClose = true
+				// It reads through br: do not hand br to another connection.
+				br = nil
 			}
 		}
 
